@@ -260,6 +260,18 @@ func (iBuilder *IndexBuilder) CreateIndexIfNotExists(mmRows *dictpool.Dict, need
 	var wg sync.WaitGroup
 	// 1st, create primary index.
 	iRows := getIndexRows()
+	// The queue workers keep pointers into *iRows (and write Err through them) until
+	// wg.Wait() returns, so the slice must not be re-allocated while rows are handed
+	// out: reserve room for every row first.
+	total := 0
+	for mmIdx := range mmRows.D {
+		if rows, ok := mmRows.D[mmIdx].Value.(*[]influx.Row); ok {
+			total += len(*rows)
+		}
+	}
+	if cap(*iRows) < total {
+		*iRows = make(indexRows, 0, total)
+	}
 	for mmIdx := range mmRows.D {
 		rows, ok := mmRows.D[mmIdx].Value.(*[]influx.Row)
 		if !ok {
